@@ -327,9 +327,7 @@ let sXMLNSCOLON =
 let ns_dump filtered env =
   flat_map (fun e ->
     app sXMLNSCOLON
-      (app (snd e)
-        (app (cEQ :: (cQUOT :: []))
-          (app (sanitize filtered [] (fst e)) (cQUOT :: []))))) env
+      (app (snd e) (app (cEQ :: []) (quoteattr filtered (fst e))))) env
 
 (** val att_toXml : (coq_N * coq_N) list -> nsenv -> (qname * str) -> str **)
 
